@@ -3,6 +3,7 @@ Postcondition monitor on the real figure_tax(), driven directly over the
 amount space, with a reference built only from the statutory brackets and the
 IRS table layout (hv/statutory.py)."""
 import math
+import sys
 from fractions import Fraction as F
 
 from hv.common import Result, rng_for
@@ -22,8 +23,8 @@ ASSUMPTIONS = [
 
 def plan(tier, seed):
     if tier == 'quick':
-        return [{'year': y, 'mode': 'quick'} for y in st.YEARS] + [{'year': y, 'mode': 'solves', 'n': 12} for y in st.YEARS]
-    specs = [{'year': y, 'mode': 'solves', 'n': 300} for y in st.YEARS]
+        return [{'year': y, 'mode': 'quick'} for y in st.YEARS] + [{'year': y, 'mode': 'solves', 'n': 12} for y in st.YEARS] + [{'year': y, 'mode': 'optimized', 'n': 300} for y in st.YEARS]
+    specs = [{'year': y, 'mode': 'solves', 'n': 300} for y in st.YEARS] + [{'year': y, 'mode': 'optimized', 'n': 20000} for y in st.YEARS]
     for y in st.YEARS:
         for lo in range(0, 100000, 12500):
             specs.append({'year': y, 'mode': 'dollars', 'lo': lo, 'hi': lo + 12500})
@@ -93,8 +94,33 @@ def run_solves(spec, tier, seed):
                 sd = st.amount('standard_deduction', year, code)
                 for taxable in (rng.choice(range(3000, 99950, 50)) + 49.75, 100000.0 + round(rng.uniform(0.01, 900), 2), round(10 ** rng.uniform(5.05, 5.7), 2)):
                     todo.append(('plain', scen.plain_persona(year, code, round(taxable + sd, 2), key=f'c07:{j}', deps_odc=1 if code == 'HOH' else 0)))
+        # line 11 and line 14 both with cents (a qualified-business-income deduction of 20 % of REIT dividends on line 13) such that
+        # their difference is a row boundary of the Tax Table in decimal arithmetic but one unit in the last place BELOW it in binary
+        # floating point: the tax belongs to the amount printed on line 15, not to the raw difference
+        found = 0
+        for _ in range(4000):
+            if found >= (3 if tier == 'quick' else 40):
+                break
+            code = rng.choice(['S', 'MFJ', 'HOH', 'MFS', 'QSS'])
+            sd = st.amount('standard_deduction', year, code)
+            d = round(rng.uniform(50, 400), 2)
+            B = float(rng.choice(range(30000, 99950, 50)))
+            b = round(float(sd) + round(0.2 * d, 2), 2)
+            a = round(B + b, 2)
+            if not (a - b < B and round(a - b, 2) == B):
+                continue
+            found += 1
+            p = scen.plain_persona(year, code, round(a - d, 2), key=f'c07ulp:{found}', deps_odc=1 if code in ('HOH', 'QSS') else 0, n_div=1,
+                                   divs=[{'box_1a': d, 'box_1b': 0.0, 'box_2a': 0.0, 'box_4': 0.0, 'box_5': d, 'box_7': 0.0, 'box_16_1': 0.0}])
+            p.ulp_low = (a, b, B)
+            todo.append(('ulp-below-a-row-boundary', p))
         for fam, p in todo:
             out = scen.solve_persona(p)
+            if getattr(p, 'ulp_low', None) and out.exc is None and out.ret is True:
+                sol_ = scen.typed_solution(out)
+                if sol_.get('1040.11') == p.ulp_low[0] and sol_.get('1040.14') == p.ulp_low[1] and sol_.get('1040.15') == p.ulp_low[2]:
+                    res.count('returns_one_ulp_below_a_row_boundary')
+                    res.distinct.add(f'{year}|ulp-low|{p.ulp_low[2]}')
             if out.exc is not None or out.ret is not True:
                 continue
             sol = scen.typed_solution(out)
@@ -113,9 +139,90 @@ def run_solves(spec, tier, seed):
     return res
 
 
+CHILD = '''
+import importlib, json, sys
+year = int(sys.argv[1])
+mod = importlib.import_module(f'habutax.forms.ty{year}.f1040_figure_tax')
+import habutax.forms
+fo = [c for c in habutax.forms.available_forms[year] if c.form_name == '1040'][0]()
+enum = None
+for i in fo.inputs():
+    if i.base_name() == 'filing_status':
+        enum = i.enum
+pts = json.load(sys.stdin)
+out = {'optimized': sys.flags.optimize, 'results': {}}
+for m in enum:
+    r = []
+    for a in pts:
+        try:
+            r.append(mod.figure_tax(a, m))
+        except BaseException as e:
+            r.append('!' + type(e).__name__)
+    out['results'][m.name] = r
+json.dump(out, sys.stdout)
+'''
+
+
+def run_optimized(spec, tier, seed):
+    """The same postcondition with the interpreter's assertions switched off (`python -O`, PYTHONOPTIMIZE): the function must not
+    lean on a failing `assert` to choose between the Tax Table and the worksheet.  A child process of the repository's interpreter
+    evaluates figure_tax on row ends, bracket edges and amounts above 100,000 for every status; the parent compares with the schedules."""
+    import json
+    import os
+    import subprocess
+    from hv import hx
+    from hv.common import REPO
+    year = spec['year']
+    res = Result()
+    rng = rng_for('C07opt', seed, spec)
+    pts = {0.0, 0.01, 99999.99, 100000.0, 100000.01, 100001.0, float(st.MAX_SUPPORTED)}
+    for code in (st.S, st.MFJ, st.MFS, st.HOH):
+        for e in st.BRACKETS[year][code]:
+            for d in (-1, -0.01, 0, 0.01, 1):
+                pts.add(round(e + d, 2))
+    for _ in range(spec['n']):
+        pts.add(round(rng.uniform(0, 100000), 2))
+        pts.add(round(10 ** rng.uniform(5, 7), 2))
+        lo = rng.choice(range(3000, 100000, 50))
+        pts.update([float(lo), lo + 49.99])
+    pts = sorted(p for p in pts if 0 <= p <= st.MAX_SUPPORTED)
+    env = dict(os.environ, PYTHONPATH=REPO, PYTHONDONTWRITEBYTECODE='1')
+    env.pop('PYTHONOPTIMIZE', None)
+    try:
+        pr = subprocess.run([sys.executable, '-O', '-W', 'ignore', '-c', CHILD, str(year)], input=json.dumps(pts), capture_output=True, text=True, timeout=600, env=env, cwd='/')
+        got = json.loads(pr.stdout)
+    except Exception as e:  # noqa
+        res.inconclusive.append(f'{year}: the optimized-mode child process gave no result: {type(e).__name__}: {str(e)[:200]}')
+        return res
+    if not got.get('optimized'):
+        res.inconclusive.append(f'{year}: the child process did not run in optimized mode')
+        return res
+    for name, vals in got['results'].items():
+        code = st.STATUS_BY_MEMBER.get(name)
+        if code is None:
+            continue
+        bad = None
+        for a, v in zip(pts, vals):
+            res.evaluations += 1
+            kind, ref = st.reference_tax(year, code, F(str(a)))
+            ok = isinstance(v, (int, float)) and not isinstance(v, bool) and ((v == ref) if kind == 'table' else abs(F(v) - ref) <= F(1, 100))
+            if ok:
+                res.count('postcondition_ok_optimized')
+                res.distinct.add(f'{year}|{code}|O|{"table" if kind == "table" else "formula"}|{int(a) // 5000}')
+            elif bad is None:
+                bad = (a, v, float(ref))
+        if bad:
+            res.violation(f'C07|{year}|optimized-mode-mismatch|{code}', f'{year} {name} under `python -O`: figure_tax({bad[0]}) returned {bad[1]!r}; the {year} schedule gives {bad[2]}',
+                          {'year': year, 'status': name, 'amount': bad[0], 'interpreter': 'python -O', 'shard': spec})
+    res.sample({'year': year, 'mode': 'python -O child', 'amounts': len(pts), 'statuses': len(got['results'])})
+    return res
+
+
 def run_shard(spec, tier, seed):
     if spec['mode'] == 'solves':
         return run_solves(spec, tier, seed)
+    if spec['mode'] == 'optimized':
+        return run_optimized(spec, tier, seed)
     from hv import hx
     year = spec['year']
     res = Result()
